@@ -3,7 +3,7 @@
    Proofs/PlaceFacts.v (list surgery over the placement loop) and Proofs/ComputeShape.v. *)
 From Coq Require Import Lia ZArith List Bool.
 From Schwifty Require Import Lib.Base Lib.Lit Model.Clean Model.Data Model.Iban Model.Bban Model.Generate.
-From Schwifty Require Import Spec.Iso13616 Proofs.CleanFacts Proofs.PlaceFacts Proofs.GenerateFacts.
+From Schwifty Require Import Spec.Iso13616 Proofs.CleanFacts Proofs.PlaceFacts Proofs.GenerateFacts Proofs.GenerateTotal.
 From Schwifty Require Import Gen.Env Gen.IbanData Gen.IbanCfg.
 Import ListNotations.
 
@@ -76,6 +76,12 @@ Theorem C08_placed_combined_all : forall national cc r bank account branch s,
   /\ field r k_account s = padded r k_account account /\ branch = [].
 Proof. exact gen_placed_combined_all. Qed.
 
+(* ... or raises a library error: never an exception from outside the library's family *)
+Theorem C08_library_errors_only : forall national cc bank account branch c,
+  generate national cc bank account branch <> Crash c.
+Proof. exact gen_generate_total. Qed.
+
+Print Assumptions C08_library_errors_only.
 Print Assumptions C08_valid.
 Print Assumptions C08_placed.
 Print Assumptions C08_placed_combined.
